@@ -457,6 +457,50 @@ class Sweeper:
                 self.maxdepth = save
         return self.results()
 
+    def direct(self, timeout=60000):
+        """no sweeping: one query per output over the full cones, with a tactic portfolio"""
+        for a, b, d, name, wa, wb in self.dag.outs:
+            for i in range(self.N):
+                self.canon.setdefault(i, (i, 0))
+                n = self.nodes[i]
+                if n[0] == 'var' and n[1] not in self.fixed: self.sign[i] = 1
+            if a == b and d == 0: continue
+            ok = False
+            tolerance = None
+            makers = [lambda: z3.Then('simplify', 'solve-eqs', 'qfnra-nlsat').solver(), lambda: z3.Solver(),
+                      lambda: z3.Then(z3.With('simplify', som=True), 'qfnra-nlsat').solver()]
+            for tol in (None, 1e-12):
+                for to in (min(10000, timeout), timeout):
+                    for mk in makers:
+                        s = mk(); s.set('timeout', to)
+                        s.add(self.lam > 0)
+                        T = self.build([b, a], 10 ** 6)
+                        ev = T(b); eu = T(a) * self.lampow(d)
+                        for f in T.facts(): s.add(f)
+                        if tol is None:
+                            s.add(ev != eu)
+                        else:
+                            # roundoff of f64 coefficient preprocessing (c/(k+1) computed in f64): relative tolerance
+                            bound = z3.RealVal('1/1000000000000') * (z3.If(eu >= 0, eu, -eu) + 1)
+                            s.add(z3.Or(ev - eu > bound, eu - ev > bound))
+                        self.stats['rel_queries'] += 1
+                        try:
+                            r = self.check(s)
+                        except z3.Z3Exception:
+                            continue
+                        if r == z3.unsat:
+                            self.stats['rel_unsat'] += 1
+                            ok = True; tolerance = tol
+                            break
+                        if r == z3.sat and tol is None:
+                            break   # exact identity refuted (may be roundoff): go on to the tolerance form
+                    if ok or (tol is None and r == z3.sat): break
+                if ok: break
+            if ok:
+                self.canon[b] = (a, d)
+                self.samples.append({'kind': 'direct', 'claim': 'n%d = lam^%d * n%d (%s)' % (b, d, a, name), 'answer': 'unsat', 'relative_tolerance': tolerance})
+        return self.results()
+
     def prove_at(self, v, u, d, depth, timeout):
         s = z3.Solver(); s.set('timeout', timeout)
         s.add(self.lam > 0)
